@@ -4,7 +4,7 @@ patch=$1; id=$2; tier=${3:-quick}
 cd /repo || exit 9
 if ! git diff --quiet; then echo "repo dirty"; exit 9; fi
 git apply "$patch" || { echo "patch does not apply"; exit 9; }
-cd /verif && ./bin/gmsmverif check $id --tier $tier ${FILTER:+--filter "$FILTER"} 2>&1 | grep -v "^KNOWN" | tail -${TAILN:-6}
+cd /verif && ${BIN:-./bin/gmsmverif} check $id --tier $tier ${FILTER:+--filter "$FILTER"} 2>&1 | grep -v "^KNOWN" | tail -${TAILN:-6}
 rc=${PIPESTATUS[0]}
 git -C /repo checkout -- . 
 echo "exit=$rc"
